@@ -23,6 +23,15 @@ def add_str_operation(op: Node, start_pos: Node, end_pos: Node, \
     
     return operation
 
+def local_var_by_offset(context: Context, fn: FunctionDef, op1: int):
+    # The operand is the offset of the local variable record, not its index
+    # (same conversion as in AssignModeLocalVarOpcode)
+    if (op1 % context.bytes_per_constant) > 0:
+        context.bytes_per_constant = (op1 % context.bytes_per_constant)
+    
+    idx: int = int(op1 / context.bytes_per_constant)
+    return fn.local_vars[idx]
+
 def add_modifiers(op: Node, stack: List[Node], index: int):
     
     op_ll_pos = stack.pop()    # Last line position
@@ -152,7 +161,7 @@ class PutIntoStringOpcode(BiOpcode):
                 fn: FunctionDef, index: int):
         
         op1 = int(stack.pop().name)
-        lval = fn.local_vars[op1]
+        lval = local_var_by_offset(context, fn, op1)
         lval = add_modifiers(lval, stack, index)
         
         op = SpAssignOperation(BinaryOperationNames.ASSIGN, index)
@@ -193,7 +202,7 @@ class PutAfterStringOpcode(BiOpcode):
                 fn: FunctionDef, index: int):
         
         op1 = int(stack.pop().name)
-        lval = fn.local_vars[op1]
+        lval = local_var_by_offset(context, fn, op1)
         lval = add_modifiers(lval, stack, index)
         
         op = SpAssignOperation(BinaryOperationNames.ASSIGN, index)
@@ -255,7 +264,7 @@ class PutBeforeStringOpcode(BiOpcode):
                 fn: FunctionDef, index: int):
         
         op1 = int(stack.pop().name)
-        lval = fn.local_vars[op1]
+        lval = local_var_by_offset(context, fn, op1)
         lval = add_modifiers(lval, stack, index)
         
         op = SpAssignOperation(BinaryOperationNames.ASSIGN, index)
@@ -315,7 +324,7 @@ class DeleteFromStringOpcode(BiOpcode):
                 fn: FunctionDef, index: int):
         
         op1 = int(stack.pop().name)
-        lval = fn.local_vars[op1]
+        lval = local_var_by_offset(context, fn, op1)
         lval = add_modifiers(lval, stack, index)
         
         op = UnaryOperation(UnaryOperationNames.DELETE, index)
